@@ -180,6 +180,24 @@ def run_case(case, stats):
             if abs(both / (n - 1) - exp) > band2:
                 viol.append(("losses-not-independent", "consecutive losses are correlated beyond a generous band",
                              {"pairs": both, "n": n, "expected_freq": exp}))
+            # the same wire under another random seed must lose other packets (chance of equality ~ 0)
+            if not viol and not case.get("_second"):
+                other = dict(case, rseed=case["rseed"] + 7919, _second=True)
+                net2 = vnet.Net()
+                random.seed(other["rseed"])
+                w2 = Wire(net2.env, vnet.Script(case["delays"], net2, "delay"), case["loss"])
+                s2 = net2.recorder("sink")
+                w2.out = s2
+                net2.tap_put(w2, "wire")
+                net2.drivers(w2, case["arrivals"])
+                net2.run()
+                ent2 = [e[5] for e in net2.tape.of("wire", "in")]
+                del2 = {e[5] for e in net2.tape.of("sink", "out")}
+                flags2 = [0 if u in del2 else 1 for u in ent2]
+                stats["loss_seed_comparisons"] += 1
+                if flags2 == flags:
+                    viol.append(("loss-pattern-ignores-random-seed", "a wire lost exactly the same packets under two different random seeds: losses are not random draws",
+                                 {"n": n, "lost": lost, "rate": loss}))
     else:
         stats["cable_cases"] += 1
         f = (lambda: (int(env.now * 4) % 5) * 0.5 + 0.25) if case["flavour"] == "exact" else \
@@ -211,7 +229,7 @@ def run_case(case, stats):
     return viol
 
 
-KEYS = ("deliveries_checked", "held_back_by_predecessor", "arrived_during_propagation", "loss_all_cases",
+KEYS = ("loss_seed_comparisons", "deliveries_checked", "held_back_by_predecessor", "arrived_during_propagation", "loss_all_cases",
         "loss_none_cases", "loss_stat_packets", "cable_cases")
 
 
